@@ -536,6 +536,7 @@ def run(chk: Check, ctx: Any) -> None:
         "filter only and moves return addresses by a forward +1 search bounded after the largest old offset (R4). "
         "Not decided: arithmetic on concrete maps beyond these shapes."
     )
+    chk.rule("C14-R6", "serialize/deserialize/rewrite_offsets interpreted on the maps of an interpreted macro project, a direct program, a decompilation and the empty map: the map read back is equal with identical entries and text; under identity, shifting, renumbering, reversing, dropping and half-swapping mappings every entry and return address follows its op")
     chk.rule("C14-R1", "serialize() field order = deserialize() index = constructor parameter -> attribute; JSON keys written = keys read; "
                        "int keys restored; element classes agree")
     chk.rule("C14-R2", "a field declared tuple[...] that is read from a JSON array is converted back to a tuple")
@@ -555,3 +556,6 @@ def run(chk: Check, ctx: Any) -> None:
     chk.floor("C14-R1", "entry classes", n, 3)
     _sourcemap_rules(chk, ctx)
     _rewrite_rules(chk, ctx)
+    from .smap_roundtrip import smap_rule
+    smap_rule(chk, ctx, "C14-R6")
+
